@@ -16,6 +16,7 @@ obs  = the answer of the implementation to every line (canonical: sorted ids).
 viol = the property's clauses evaluated on the implementation with a dict-of-sets oracle
        (graph name -> set of triples, plus the set of created names), see `_Oracle`.
 """
+import re
 import warnings
 
 import core  # noqa: F401
@@ -34,7 +35,7 @@ DRIVER = "drv_c02"
 CASES = {"quick": 3000, "thorough": 60000, "search": 20000}
 RULE = ("random scripts (3-12 mutating calls quick / 3-16 thorough, each followed by an observation block and 2-5 probes) over one Memory "
         "store seen through a Dataset (default_union on/off), a ConjunctiveGraph and independent Graph(store, name) "
-        "views, reads including triples_choices (each list position) and property-path quad patterns (p/q, p|q, ^p, p*); graph names: IRI, blank node with the same label, IRI, blank node, one never created, one created but "
+        "views, default_union switched at run time, reads including triples_choices (each list position) and property-path quad patterns (p/q, p|q, ^p, p*); graph names: IRI, blank node with the same label, IRI, blank node, one never created, one created but "
         "empty, the two default graphs; non-trivial = at some point two graphs held a common triple or a restricted "
         "query hit an empty/unknown graph while another graph matched, and at least one removal happened; "
         "distinct = distinct scripts")
@@ -295,9 +296,12 @@ def run_impl(case):
         w = lines[k].split()
         op = w[0]
         bump("op_" + op)
-        mutating = op in ("add", "addn", "remove", "graph", "rmgraph", "rmctx", "vadd", "vremove")
+        mutating = op in ("add", "addn", "remove", "graph", "rmgraph", "rmctx", "vadd", "vremove", "setdu")
         before = im.snapshot() if mutating else None
         touched = None     # set of graph keys the op may change (None = all)
+        reg_before = {im.gid(g) for g in im.store.contexts()}
+        # graphs whose registry entry the line may change: graphs carried in by a foreign Graph object, plus per op
+        reg_touched = {int(x) for x in re.findall(r"f(\d+):", lines[k])}
         add_target = None
         if True:
             if op == "add":
@@ -308,6 +312,7 @@ def run_impl(case):
                 tk = _gkey(g) if _gkey(g) is not None else dflt(top)
                 orc.add(t, tk)
                 add_target = tk
+                reg_touched.add(tk)
                 touched = {tk} | affected(g)
                 bump("add_" + g[0])
                 out = "ok"
@@ -330,6 +335,7 @@ def run_impl(case):
                         break
                     orc.add((int(a), int(b), int(c)), _gkey(g))
                     touched.add(_gkey(g))
+                    reg_touched.add(_gkey(g))
                 try:
                     if k % 2 == 0 and top == "d":
                         im.d += qs
@@ -356,12 +362,14 @@ def run_impl(case):
                 foreign_effect(g)
                 orc.create(g[1])
                 touched = affected(g)
+                reg_touched.add(g[1])
                 out = "ok"
             elif op == "rmgraph":
                 gk = int(w[2])
                 im.d.remove_graph(im.names[gk] if k % 2 else im.view(gk))
                 orc.remove_graph(gk)
                 touched = {gk}
+                reg_touched.add(gk)
                 flags["removal"] = True
                 out = "ok"
             elif op == "rmctx":
@@ -376,6 +384,7 @@ def run_impl(case):
                 im.view(gk).add(im.triple(t))
                 orc.add(t, gk)
                 touched = {gk}
+                reg_touched.add(gk)
                 out = "ok"
             elif op == "vremove":
                 gk, pat = int(w[1]), tuple(map(_p, w[2:5]))
@@ -492,7 +501,29 @@ def run_impl(case):
                         bad("graphs", k, f"graphs() = {res}, created and not removed = {sorted(orc.K | {D_DEF})}")
                 elif set(res) - {D_DEF} != orc.K - {D_DEF}:
                     bad("graphs", k, f"contexts() = {res}, created and not removed = {sorted(orc.K)}")
+                # the merged view is the union of the *listed* graphs: a graph that holds triples is listed
+                for gk, ts in im.snapshot().items():
+                    if ts and gk not in res:
+                        bad("unlisted", k, f"graph {gk} holds {sorted(ts)} but is not listed")
                 out = " ".join(map(str, res))
+            elif op == "setdu":
+                top, b = w[1], w[2] == "1"
+                n_before = len(im.top(top))
+                im.top(top).default_union = b
+                im.du[top] = b
+                touched = set()
+                if len(im.top(top)) != n_before:
+                    bad("switch", k, "len() changed when default_union was switched")
+                bump("setdu")
+                out = "ok"
+            elif op == "iter":
+                res = [(im.ids(q[:3]) + (im.gid(q[3]),)) for q in (iter(im.d) if k % 2 else im.d.__iter__())]
+                want = {t + (gk,) for gk, ts in orc.D.items() for t in ts}
+                if set(res) != want:
+                    bad("quads", k, f"iterating the dataset gives {sorted(set(res))}, the mapping gives {sorted(want)}")
+                if len(res) != len(set(res)):
+                    bad("dup", k, "a quad is yielded twice")
+                out = " ".join(",".join(map(str, q)) for q in sorted(res))
             elif op == "graphsof":
                 top, t = w[1], tuple(map(int, w[2:5]))
                 if top == "d":
@@ -654,6 +685,12 @@ def run_impl(case):
             else:
                 out = "bad-op"
         obs.append(out)
+        # registry isolation, on the implementation's own store.contexts(): only the graphs the line addresses
+        # may appear / disappear (the default graph of the Dataset is re-created lazily: exempt)
+        reg_after = {im.gid(g) for g in im.store.contexts()}
+        for gk in (reg_before ^ reg_after) - reg_touched - {D_DEF}:
+            bad("registry", k, f"graph {gk} was {'listed' if gk in reg_before else 'not listed'} by the store before the call and is "
+                               f"{'listed' if gk in reg_after else 'not listed'} after it, although the call addresses {sorted(reg_touched)}")
         if orc.shared():
             flags["shared"] = True
         if mutating:
@@ -739,7 +776,7 @@ def gen_case(rng, tier, i):
     def block():
         out = ["sctx"]
         for t in tops:
-            out += [f"quads {t} nil", f"graphs {t}", f"len {t}"]
+            out += ["iter d" if t == "d" and rng.random() < 0.3 else f"quads {t} nil", f"graphs {t}", f"len {t}"]
         for k in ALLKEYS:
             out.append(f"vtriples {k} * * *")
         return out
@@ -865,10 +902,12 @@ def gen_case(rng, tier, i):
                 k = gkey()
                 lines.append(f"vremove {k} {ps}")
                 spec.remove(pat, k)
-        elif r < 0.82 and "d" in tops:
+        elif r < 0.78 and "d" in tops:
             k = rng.choice(NAMED + [D_DEF])
             lines.append(f"graph d {garg(k)}")
             spec.create(k)
+        elif r < 0.83:
+            lines.append(f"setdu {top} {rng.randint(0, 1)}")     # default_union switched at run time
         elif r < 0.93 and "d" in tops:
             k = rng.choice(NAMED + NAMED + [D_DEF, C_DEF, UNKNOWN])
             lines.append(f"rmgraph d {k}")
@@ -883,7 +922,7 @@ def gen_case(rng, tier, i):
 
 
 READS = ("sctx", "quads", "graphs", "len", "vtriples", "triples", "contains", "graphsof", "vcontains", "vlen",
-         "choices", "vchoices", "path", "pathin", "vpath")
+         "choices", "vchoices", "path", "pathin", "vpath", "iter")
 
 
 def shrink(case):
